@@ -166,6 +166,7 @@ pub fn run(ctx: &Ctx, replay: Option<&str>) -> i32 {
          redefinition.",
     );
     ctx.assume("the reference interpreter anchors the differential: agreement among configurations alone is not accepted");
+    c06::set_avoid(ctx);
     let cfgs = configs(ctx);
     ctx.extra("configurations", serde_json::json!(cfgs.iter().map(|c| c.label()).collect::<Vec<_>>()));
     if let Some(path) = replay {
@@ -203,7 +204,7 @@ pub fn run(ctx: &Ctx, replay: Option<&str>) -> i32 {
             (any::<bool>(), any::<bool>(), any::<bool>(), prop::collection::vec(any::<u16>(), 0..600)).prop_map(move |(a, b, c, d)| {
                 // one case in eight is a history
                 if a && b && c {
-                    Case02::Hist(c06::case_from_choices(&d, &HistOpts { max_ops: 25, fail_weight: 2, bulk: false }))
+                    Case02::Hist(c06::case_from_choices(&d, &HistOpts { avoid: c06::avoid(), max_ops: 25, fail_weight: 2, bulk: false }))
                 } else {
                     Case02::Prog(c01::case_from_choices(&d, c01::opts(avoid.clone())))
                 }
